@@ -279,7 +279,7 @@ def model_compare(lines, violations) -> int:
     hdr = HEADER.replace("Corr.Check.", "Corr.Check Model.Render Proofs.RenderP.")
     for k in range(0, len(lines), per):
         chunk = lines[k:k + per]
-        path = os.path.join(GEN, f"cases_C12_{k // per}.v")
+        path = os.path.join(GEN, f"cases_C12_p{os.getpid()}_{k // per}.v")
         body = [hdr, "Goal True.\n"] + [f"  chk_eq {i}%nat {lhs} {rhs}.\n" for i, (lhs, rhs, _) in enumerate(chunk)] + ["exact I. Qed.\n"]
         open(path, "w").write("".join(body))
         files.append((path, chunk))
